@@ -27,3 +27,9 @@ let () = register "r.whatwg" (fun toks ->
   match toks with
   | [bs; bh; bp; i] -> print_fields (entry_whatwg (h bs) (h bh) (n_of_int (int_of_string bp)) (h i))
   | _ -> bad "r.whatwg")
+let () = register "r.spxhandler" (fun toks ->
+  match toks with
+  | [ings; fb; srv; rh; rp; lo; p] ->
+    let il = List.map h (String.split_on_char ',' ings) in
+    print_fields (entry_spxhandler il (h fb) (h srv) (h rh) (h rp) (lo = "1") (h p))
+  | _ -> bad "r.spxhandler")
